@@ -209,3 +209,30 @@ for (name, fl), compound in itertools.product(FLAGS.items(), (False, True)):
                  m.ByNameEnumMappingGenerator(), allow_compound=compound)), "enum": ("const", fl)},
              post={"created": "returned"}, clause_props=CP,
              notes=[f"dumper creation for flag {name}, allow_compound={compound}"])
+
+
+# ---------------------------------------------------------------------------------------------- flag by member names: dumper
+# every call builds a NEW list (C20) holding the names of the members contained in the value (C18)
+for (name, fl), compound in itertools.product(FLAGS.items(), (False, True)):
+    mask = 0
+    for mem in fl.__members__.values():
+        mask |= mem.value
+    for v in sorted({0, 1, 3, mask}):
+        try:
+            val = fl(v)
+        except ValueError:
+            continue
+        label = f"dump-{name}-compound{int(compound)}-{v}"
+        contract(F, "FlagByListProvider._make_dumper", name=f"{F}:FlagByListProvider._make_dumper[{label}]",
+                 props=["C18", "C20"],
+                 via=Via("FlagByListProvider._make_dumper",
+                         {label: (lambda m, compound=compound: m.FlagByListProvider(m.ByNameEnumMappingGenerator(), allow_compound=compound))},
+                         kwargs={"enum": ("const", fl)}, any_closure=True),
+                 params={"value": ("const", val)}, consts={"FL": fl, "VAL": val},
+                 post={"raises-nothing": "returned",
+                       "fresh-result": "implies(returned, is_fresh(result) and type(result) is list)",
+                       "names-of-contained-members": ("implies(returned, py(lambda r: all(n in FL.__members__ and FL[n] in VAL "
+                                                      "for n in r), result))")},
+                 clause_props={"fresh-result": ["C20"], "names-of-contained-members": ["C18"], "raises-nothing": ["C18"],
+                               "modifies-nothing": ["C20"]},
+                 notes=[f"flag {name} value {v} allow_compound={compound}"])
